@@ -125,45 +125,54 @@ from mirsym.driver import unsigned_of
 
 
 class BriefChain(Harness):
-    """brief_path_selection on (op_1 (op_2 ... (op_k X))) with op_i in {f, r} and X an integer path:
-    the rewritten path equals X followed by the k steps, innermost first"""
+    """brief_path_selection on (op_1 (op_2 ... (op_k X))) with op_i in {f, r} (concrete sequence per case) and X a symbolic
+    integer path: the rewritten path equals X followed by the k steps, innermost first"""
     name = 'brief_chain'
     prop = 'C02'
     kernel = 'brief_chain'
     functions = ['brief::brief_path_selection', 'brief_path_selection_single', 'is_first_atom', 'is_rest_atom', 'is_quote_atom',
                  'SExp::{proper_list,atomize,nilp}', 'compose_paths']
-    assumptions = ['X is a positive Integer path (what the code generator emits) of the stated byte length; the chain is any sequence of f/r of the stated length']
+    assumptions = ['X is a positive Integer path (what the code generator emits) of the stated byte length with arbitrary bits; the chain is a concrete sequence of f/r per case (all-first, all-rest, alternating, seeded random) of the stated length']
     outside = 'chains applied to non-path expressions (left unchanged by design)'
-    spec = {'quick': dict(k=(1, 2, 3, 8), n=(1, 2, 4)), 'thorough': dict(k=(1, 2, 3, 4, 8, 20, 40), n=(1, 2, 4, 9))}
-    bigw = {'quick': 136, 'thorough': 264}
+    spec = {'quick': dict(k=(1, 2, 3, 8), n=(1, 2)), 'thorough': dict(k=(1, 2, 3, 4, 8, 20, 40), n=(1, 2, 4))}
+    bigw = {'quick': 136, 'thorough': 136}
     loop_bound = 400
 
     def cases(self, tier):
+        import random
         sp = self.spec[tier]
         for k in sp['k']:
-            for n in sp['n']:
-                yield dict(k=k, n=n)
+            seqs = {tuple([False] * k), tuple([True] * k), tuple(bool(i % 2) for i in range(k))}
+            r = random.Random(k)
+            seqs.add(tuple(r.random() < 0.5 for _ in range(k)))
+            for ops in sorted(seqs):
+                for n in sp['n']:
+                    yield dict(ops=list(ops), n=n)
 
     def sym_inputs(self, case):
-        return dict(ops=[z3.Bool('isrest_%d' % i) for i in range(case['k'])], x=sym_bytes('x', case['n']))
+        return dict(x=sym_bytes('x', case['n']))
 
     def conc_inputs(self, case, j):
-        return dict(ops=[z3.BoolVal(b) for b in j['ops']], x=conc_bytes(j['x']))
+        return dict(x=conc_bytes(j['x']))
 
     def inputs_json(self, case, inp, model):
-        return dict(ops=[bool(ev(model, b)) for b in inp['ops']], x=ev_bytes(model, inp['x']))
+        return dict(x=ev_bytes(model, inp['x']))
 
     def run(self, eng, case, inp):
         W = eng.bigw
         xv = unsigned_of(inp['x'], W)
         eng.assume(xv != 0)
         body = rich.integer(xv)
-        # build from the innermost outwards: ops[0] is applied first (innermost)
-        for b in inp['ops']:
-            opv = z3.If(b, z3.BitVecVal(6, W), z3.BitVecVal(5, W))
-            body = rich.cons(rich.integer(opv), rich.cons(body, rich.nil()))
+        for b in case['ops']:           # ops[0] is innermost (applied first)
+            body = rich.cons(rich.integer(z3.BitVecVal(6 if b else 5, W)), rich.cons(body, rich.nil()))
         r = eng.call('brief::brief_path_selection', [rich.rc(body)])
         return dict(res=r, xv=xv)
+
+    def chain_path(self, ops):
+        k = 1
+        for b in ops:
+            k = py_step(k, 'rest' if b else 'first')
+        return k
 
     def obligations(self, eng, case, inp, out):
         changed, val = out['res'].fields
@@ -171,11 +180,10 @@ class BriefChain(Harness):
         if v.variant != 'Integer':
             return [('chain_on_a_path_becomes_a_path', z3.BoolVal(False))]
         W = eng.bigw
-        n = out['xv']
-        for b in inp['ops']:
-            t = top_bit(n, W)
-            n = z3.If(b, n + 2 * t, n + t)
-        return [('rewritten', changed.e), ('composed_path_value', v.fields[1].e == n)]
+        x = out['xv']
+        top = top_bit(x, W)
+        want = (x & (top - 1)) + z3.BitVecVal(self.chain_path(case['ops']), W) * top
+        return [('rewritten', changed.e), ('composed_path_value', v.fields[1].e == want)]
 
     def output_json(self, eng, case, inp, out, model):
         v = rich.unrc(out['res'].fields[1])
@@ -183,15 +191,18 @@ class BriefChain(Harness):
             return dict(other=True)
         return dict(path=str(ev(model, v.fields[1].e)))
 
+    def native_inputs(self, case, j):
+        return dict(x=j['x'], ops=case['ops'])
+
     def oracle(self, case, j):
         n = int.from_bytes(bytes(j['x']), 'big')
-        for b in j['ops']:
+        for b in case['ops']:
             n = py_step(n, 'rest' if b else 'first')
         return dict(path=str(n))
 
     def vectors(self, case, rnd):
         vs = []
-        for _ in range(4):
+        for _ in range(3):
             x = [rnd.choice([1, 0x7f, 0x80, 0xff, rnd.randrange(1, 256)])] + [rnd.randrange(256) for _ in range(case['n'] - 1)]
-            vs.append(dict(ops=[rnd.random() < 0.5 for _ in range(case['k'])], x=x))
+            vs.append(dict(x=x))
         return vs
